@@ -1,4 +1,4 @@
 EXTEND = {
     "lean_modules": ["MithrilModel.Vacuity.C15"],
-    "theorems": ["Vacuity.C15.Ex'_quorum", "Vacuity.C15.freshPlan_holds"],
+    "theorems": ["Vacuity.C15.ExQ_quorum", "Vacuity.C15.freshPlan_holds"],
 }
